@@ -45,8 +45,13 @@ fn fault_plan(v: &Value) -> Vec<(usize, Fault)> {
     }).collect()).unwrap_or_default()
 }
 
+/// reduce() exists for binary trees only
+trait Red { fn red(&mut self); }
+impl Red for AffTree<2> { fn red(&mut self) { self.reduce(); } }
+impl Red for AffTree<4> { fn red(&mut self) { panic!("reduce is only defined for K = 2") } }
+
 /// applies one step; returns the right operand (if any) before and after
-fn apply_step(t: &mut AffTree<2>, st: &Value) -> (Value, Value, Value) {
+fn apply_step<const K: usize>(t: &mut AffTree<K>, st: &Value) -> (Value, Value, Value) where AffTree<K>: Red {
     use std::ops::*;
     let op = st["op"].as_str().unwrap();
     let q = 1.0;
@@ -54,14 +59,14 @@ fn apply_step(t: &mut AffTree<2>, st: &Value) -> (Value, Value, Value) {
         "eliminate" => { let c = t.infeasible_elimination(); (none(), none(), json!({"nodes_checked": c.nodes_checked, "cached": c.cached_state, "skipped": c.skipped_nodes,
                          "inherited": c.parent_sol_inherited, "mirror": c.mirror_iter.len(), "lps": c.lps_solved, "lpf": c.lps_feasible, "lpi": c.lps_infeasible, "lpe": c.lps_error})) }
         "compose" | "compose_prune" => {
-            let mut r: AffTree<2> = build(st["rhs"].as_array().unwrap());
+            let mut r: AffTree<K> = build(st["rhs"].as_array().unwrap());
             if st.get("rhs_elim").and_then(|v| v.as_bool()).unwrap_or(false) { r.infeasible_elimination(); } // the operand carries cached states
             let before = tree_json(&r, q);
             if op == "compose" { t.compose::<false, false>(&r); } else { t.compose::<true, false>(&r); }
             (before, tree_json(&r, q), none())
         }
         "apply_func" => { t.apply_func(&aff_from(&st["aff"])); (none(), none(), none()) }
-        "reduce" => { t.reduce(); (none(), none(), none()) }
+        "reduce" => { t.red(); (none(), none(), none()) }
         "replace_node" => {
             // target: the first non-root node in index order
             let root = t.tree.get_root_idx();
@@ -69,18 +74,18 @@ fn apply_step(t: &mut AffTree<2>, st: &Value) -> (Value, Value, Value) {
             let new_idx = t.replace_node(target, aff_from(&st["aff"])).expect("replace_node");
             (none(), none(), json!({"target": target, "new": new_idx}))
         }
-        "neg" => { let x = std::mem::replace(t, AffTree::<2>::new(1)); *t = x.neg(); (none(), none(), none()) }
+        "neg" => { let x = std::mem::replace(t, AffTree::<K>::new(1)); *t = x.neg(); (none(), none(), none()) }
         "add" | "sub" | "mul" | "div" => {
-            let mut r: AffTree<2> = build(st["rhs"].as_array().unwrap());
+            let mut r: AffTree<K> = build(st["rhs"].as_array().unwrap());
             if st.get("rhs_elim").and_then(|v| v.as_bool()).unwrap_or(false) { r.infeasible_elimination(); }
             let before = tree_json(&r, q);
-            let x = std::mem::replace(t, AffTree::<2>::new(1));
+            let x = std::mem::replace(t, AffTree::<K>::new(1));
             *t = match op { "add" => x.add(&r), "sub" => x.sub(&r), "mul" => x.mul(&r), _ => x.div(&r) };
             (before, tree_json(&r, q), none())
         }
         "add_aff" | "sub_aff" => {
             let a = aff_from(&st["aff"]);
-            let x = std::mem::replace(t, AffTree::<2>::new(1));
+            let x = std::mem::replace(t, AffTree::<K>::new(1));
             *t = if op == "add_aff" { x.add(&a) } else { x.sub(&a) };
             (none(), none(), none())
         }
@@ -89,10 +94,20 @@ fn apply_step(t: &mut AffTree<2>, st: &Value) -> (Value, Value, Value) {
 }
 
 pub fn run(sc: &Value, id: usize, out: Out) {
+    match sc.get("k").and_then(|v| v.as_u64()).unwrap_or(2) {
+        2 => {
+            let t: AffTree<2> = if sc.get("schema").is_some() { crate::schema::make(&sc["schema"]) } else { build(sc["lhs"].as_array().unwrap()) };
+            run_k::<2>(t, sc, id, out)
+        }
+        4 => run_k::<4>(build(sc["lhs"].as_array().unwrap()), sc, id, out),
+        k => panic!("unsupported K {}", k),
+    }
+}
+
+fn run_k<const K: usize>(mut t: AffTree<K>, sc: &Value, id: usize, out: Out) where AffTree<K>: Red {
     let q = 1.0;
-    let mut t: AffTree<2> = if sc.get("schema").is_some() { crate::schema::make(&sc["schema"]) } else { build(sc["lhs"].as_array().unwrap()) };
     let exps = crate::afftree::apply_pscale(&mut t, sc.get("pscale").and_then(|v| v.as_str()).unwrap_or(""));
-    let tree_json = |t: &AffTree<2>, q: f64| crate::afftree::tree_json_ps(t, q, &exps);
+    let tree_json = |t: &AffTree<K>, q: f64| crate::afftree::tree_json_ps(t, q, &exps);
     let steps = sc["steps"].as_array().cloned().unwrap_or_default();
     let faults = fault_plan(sc.get("faults").unwrap_or(&Value::Null));
     let n = steps.len();
@@ -111,7 +126,7 @@ pub fn run(sc: &Value, id: usize, out: Out) {
         verif::start(plan.clone());
         let r = guarded(|| apply_step(&mut t, st));
         let calls = verif::stop();
-        let mut ev = json!({"fam": "afftree", "sc": id, "step": j, "first": j == 0 || !record_all, "k": 2, "q": 1, "mode": "history", "op": op, "variant": "",
+        let mut ev = json!({"fam": "afftree", "sc": id, "step": j, "first": j == 0 || !record_all, "k": K, "q": 1, "mode": "history", "op": op, "variant": "",
                             "pre": pre.clone(), "aff": st.get("aff").cloned().unwrap_or(none()),
                             "exp": if last { sc.get("exp").cloned().unwrap_or(none()) } else { none() },
                             "faulty": !plan.is_empty(), "lp": lp_json(&calls, q), "last": last});
@@ -153,7 +168,7 @@ pub fn run(sc: &Value, id: usize, out: Out) {
 
 /// C11: runs the step fault-free to learn the number N of LP calls, then once per fault plan over all subsets of
 /// call positions of size <= max_subset and all fault kinds (capped), one event per plan.
-fn fault_sweep(t0: &AffTree<2>, st: &Value, pre: &Value, max_subset: usize, id: usize, step: usize, out: Out) {
+fn fault_sweep<const K: usize>(t0: &AffTree<K>, st: &Value, pre: &Value, max_subset: usize, id: usize, step: usize, out: Out) where AffTree<K>: Red {
     let q = 1.0;
     let op = st["op"].as_str().unwrap_or("");
     let mut base = t0.clone();
@@ -185,7 +200,7 @@ fn fault_sweep(t0: &AffTree<2>, st: &Value, pre: &Value, max_subset: usize, id: 
         verif::start(plan.clone());
         let r = guarded(|| apply_step(&mut t, st));
         let calls = verif::stop();
-        let mut ev = json!({"fam": "afftree", "sc": id, "step": step, "first": true, "k": 2, "q": 1, "mode": "history", "op": op, "variant": "",
+        let mut ev = json!({"fam": "afftree", "sc": id, "step": step, "first": true, "k": K, "q": 1, "mode": "history", "op": op, "variant": "",
                             "pre": pre.clone(), "aff": st.get("aff").cloned().unwrap_or(none()), "exp": none(), "faulty": true,
                             "plan": plan.iter().map(|(i, f)| json!([i, format!("{:?}", f)])).collect::<Vec<_>>(),
                             "lp": lp_json(&calls, q), "last": true, "n_lp_faultfree": n,
